@@ -169,7 +169,7 @@ for sid, (what, need) in sorted(needs.items()):
     if os.path.exists(src + '/notes.md'):
         shutil.copyfile(src + '/notes.md', dst + '/notes.md')
     prop = sid.split('-')[0]
-    decided_by = {"C03-3": "C05", "C03-4": "C05"}.get(sid, prop)  # changes that need a faulty party are C05's subject
+    decided_by = {"C03-3": "C05", "C03-4": "C05", "C04-7": "C05"}.get(sid, prop)  # changes that need a faulty party are C05's subject
     d = extra.get(sid) or det.get((sid, decided_by))
     meta = {
         "id": sid, "breaks_property": prop, "what": what, "needs_to_manifest": need,
